@@ -101,6 +101,8 @@ counters!(
     deny_ops,
     allow_ops,
     restart_ops,
+    clock_jumps,
+    runs_clock_before_1970,
     restart_dropped_provider,
     queries,
     queries_with_provider,
@@ -689,6 +691,23 @@ pub fn install_quiet_panic_hook() {
     }));
 }
 
+/// Sets this thread's simulated wall clock (the seam behind `Epoch::now`).
+pub fn set_clock(unix_s: Option<u64>) {
+    verif_seam::set_now(Some(unix_s.map(std::time::Duration::from_secs)));
+}
+
+/// Does `Epoch::now()` read the simulated clock? (A tree that reaches the system clock some other
+/// way cannot be given a simulated one; reported, never judged.)
+pub fn clock_seam_works() -> bool {
+    set_clock(Some(1_000_000_000));
+    let a = hifitime::Epoch::now().ok().map(|e| e.to_unix_seconds());
+    set_clock(Some(2_000_000_123));
+    let b = hifitime::Epoch::now().ok().map(|e| e.to_unix_seconds());
+    set_clock(None);
+    let c = hifitime::Epoch::now().is_err();
+    a == Some(1_000_000_000.0) && b == Some(2_000_000_123.0) && c
+}
+
 fn take_last_panic() -> String {
     LAST_PANIC.with(|p| std::mem::take(&mut *p.borrow_mut()))
 }
@@ -820,6 +839,8 @@ impl Sim {
         let ctx = self.ctx.clone();
         let mut trace: Vec<String> = Vec::new();
         self.begin_run_with(sc.seed, sc.stat_lies);
+        set_clock(sc.clock);
+        let mut clock_now = sc.clock;
         {
             let mut w = self.world.borrow_mut();
             w.log = Fnv::default();
@@ -830,6 +851,10 @@ impl Sim {
                 w.install(sc.initial);
             }
             w.ctr.inc(C::runs);
+            if sc.clock.is_none() {
+                w.ctr.inc(C::runs_clock_before_1970);
+            }
+            w.log.u64(sc.clock.map(|u| u + 1).unwrap_or(0));
             match sc.stat_lies {
                 1 => w.ctr.inc(C::runs_stat_reports_empty),
                 2 => w.ctr.inc(C::runs_stat_reports_other_size),
@@ -891,6 +916,16 @@ impl Sim {
                     w.deny = None;
                     if self.trace {
                         trace.push(format!("op{oi} Allow"));
+                    }
+                }
+                Op::SetClock { unix_s } => {
+                    set_clock(*unix_s);
+                    clock_now = *unix_s;
+                    let mut w = self.world.borrow_mut();
+                    w.ctr.inc(C::clock_jumps);
+                    w.log.u64(unix_s.map(|u| u + 1).unwrap_or(0));
+                    if self.trace {
+                        trace.push(format!("op{oi} SetClock -> {unix_s:?} s past the UNIX epoch"));
                     }
                 }
                 Op::Restart { client } => {
@@ -959,6 +994,7 @@ impl Sim {
                                 let mut sim = Sim::new(ctx, disk);
                                 sim.trace = trace_on;
                                 sim.set_sched(sched.clone(), j);
+                                set_clock(clock_now);
                                 if let Some(sh) = shared {
                                     sim.set_shared(sh);
                                 }
@@ -968,6 +1004,7 @@ impl Sim {
                                     n_clients: 1,
                                     initial: t.image,
                                     stat_lies: 0,
+                                    clock: clock_now,
                                     ops: vec![
                                         Op::Load {
                                             client: 0,
